@@ -423,7 +423,8 @@ NestedRouting == \A e \in Exch : \A j \in 1..Len(recv[e]) :
           /\ recv[e][j].pl.s = x[e].s
           /\ IF recv[e][j].pl.o = "sa" \/ Json THEN x[e].st = "sa" ELSE x[e].st = recv[e][j].pl.o
      \* a broadcast is, for every receiving session, a message outside any of its requests
-     /\ recv[e][j].pl.k = "bcast" => x[e].st = "sa"
+     \* (the issuing session may also get it on the issuing request's stream)
+     /\ recv[e][j].pl.k = "bcast" => x[e].st = "sa" \/ (recv[e][j].pl.os = x[e].s /\ recv[e][j].pl.o = x[e].st)
 NoCrossSession == \A e \in Exch : \A j \in 1..Len(recv[e]) : recv[e][j].pl.s = x[e].s
 \* a response is written at most once per request and only after its stream was registered
 RoutingEntryLifecycle == \A s \in Sess, r \in Reqs : r \in rs[s] => h[s][r].pc \in {"run", "busy", "busyq", "busyb", "wait", "ret"}
